@@ -123,8 +123,8 @@ def interpreter_settings():
                             if not k.startswith("__") and isinstance(v, (bool, int, float, str, bytes, type(None))))
         except Exception:  # noqa
             continue
-        if simple:
-            out["setting:module " + name] = hashlib.sha256(repr(simple).encode()).hexdigest()[:12]
+        for (k, v) in simple:
+            out[f"setting:module {name}.{k}"] = v if len(v) <= 60 else hashlib.sha256(v.encode()).hexdigest()[:12]
     try:
         from PIL import Image, ImageFile
         put("PIL.MAX_IMAGE_PIXELS", lambda: Image.MAX_IMAGE_PIXELS)
@@ -332,14 +332,15 @@ def make_zip(members):
     return buf.getvalue()
 
 
-def make_pdf(lines, resources_extra=b""):
-    """One-page PDF, Helvetica, one text line per `lines` entry (uncompressed content stream, valid xref)."""
+def make_pdf(lines, resources_extra=b"", extra_objs=()):
+    """One-page PDF, Helvetica, one text line per `lines` entry (uncompressed content stream, valid xref); `extra_objs` become the
+    objects 6, 7, ... (image XObjects named from `resources_extra`)."""
     esc = lambda t: t.replace("\\", "\\\\").replace("(", "\\(").replace(")", "\\)")
     content = ("BT /F1 11 Tf 72 740 Td 14 TL\n" + "\n".join(f"({esc(l)}) Tj T*" for l in lines) + "\nET").encode("latin-1", "replace")
     objs = [b"<< /Type /Catalog /Pages 2 0 R >>", b"<< /Type /Pages /Kids [3 0 R] /Count 1 >>",
             b"<< /Type /Page /Parent 2 0 R /MediaBox [0 0 612 792] /Contents 5 0 R /Resources << /Font << /F1 4 0 R >> " + resources_extra + b" >> >>",
             b"<< /Type /Font /Subtype /Type1 /BaseFont /Helvetica /Encoding /WinAnsiEncoding >>",
-            b"<< /Length %d >>\nstream\n" % len(content) + content + b"\nendstream"]
+            b"<< /Length %d >>\nstream\n" % len(content) + content + b"\nendstream"] + list(extra_objs)
     out, offs = bytearray(b"%PDF-1.4\n"), []
     for i, o in enumerate(objs, 1):
         offs.append(len(out))
@@ -371,8 +372,8 @@ ODT_CONTENT = ('<?xml version="1.0" encoding="UTF-8"?><office:document-content x
                '<office:body><office:text><text:p>Report with figures.</text:p>{frames}<text:p>End.</text:p></office:text></office:body></office:document-content>')
 
 
-def make_odt(pictures):
-    """Minimal ODT embedding `pictures` = [(member name, bytes)] as draw:image frames."""
+def make_odt(pictures, extra_body=""):
+    """Minimal ODT embedding `pictures` = [(member name, bytes)] as draw:image frames (+ `extra_body`: more paragraphs)."""
     frames = "".join(f'<text:p><draw:frame draw:name="f{i}" svg:width="2cm" svg:height="2cm"><draw:image xlink:href="{n}" xlink:type="simple"/></draw:frame></text:p>'
                      for i, (n, _d) in enumerate(pictures))
     pics = "".join(f'<manifest:file-entry manifest:full-path="{n}" manifest:media-type=""/>' for (n, _d) in pictures)
@@ -380,7 +381,7 @@ def make_odt(pictures):
     with zipfile.ZipFile(buf, "w") as zf:
         zf.writestr("mimetype", "application/vnd.oasis.opendocument.text", zipfile.ZIP_STORED)
         zf.writestr("META-INF/manifest.xml", ODT_MANIFEST.format(pics=pics))
-        zf.writestr("content.xml", ODT_CONTENT.format(frames=frames))
+        zf.writestr("content.xml", ODT_CONTENT.format(frames=frames + extra_body))
         for n, d in pictures:
             zf.writestr(n, d)
     return buf.getvalue()
@@ -464,6 +465,100 @@ def generated_corpus(tmp):
     add("rtf", "r.rtf", r"{\rtf1\ansi{\fonttbl{\f0 Arial;}}\f0 Hello \b world\b0 .\par}")
     add("eml", "m.eml", "From: a@e.org\nTo: b@e.org\nSubject: s\nDate: Mon, 1 Jan 2024 00:00:00 +0000\n\nbody\n")
     return docs
+
+
+def flate_image_object(width, height, inflated_size):
+    """Image XObject (DeviceGray, 8 bit, FlateDecode) whose dictionary declares width x height and whose stream inflates to
+    `inflated_size` zero bytes."""
+    import zlib
+    co = zlib.compressobj(6)
+    chunk, parts, left = bytes(1 << 20), [], inflated_size
+    while left > 0:
+        k = min(left, len(chunk))
+        parts.append(co.compress(chunk[:k]))
+        left -= k
+    parts.append(co.flush())
+    img = b"".join(parts)
+    return (b"<< /Type /XObject /Subtype /Image /Width %d /Height %d /ColorSpace /DeviceGray /BitsPerComponent 8 /Filter /FlateDecode /Length %d >>\nstream\n"
+            % (width, height, len(img)) + img + b"\nendstream")
+
+
+def limit_corpus(tmp, heavy=True):
+    """[(label, path)]: documents AT THE LIMITS of what runs underneath the extractors -- the code paths on which a library is
+    tempted to move a process-wide limit: mark-up nested deeper than the interpreter's recursion limit, and (heavy) PDF image streams
+    that inflate beyond pypdf's output limit, once honestly declared by Width x Height and once not (a decompression bomb)."""
+    docs = []
+
+    def add(label, name, data):
+        p = os.path.join(tmp, name)
+        with open(p, "wb") as fh:
+            fh.write(data if isinstance(data, bytes) else data.encode("utf-8"))
+        docs.append((label, p))
+    depth = sys.getrecursionlimit() + 600
+    for tag in ("text:span", "text:a"):
+        deep = f"<{tag}>" * depth + "deeply nested words" + f"</{tag}>" * depth
+        add(f"odt with a paragraph of {depth} nested {tag} (deeper than the recursion limit {sys.getrecursionlimit()})", f"deep_{tag[5:]}.odt",
+            make_odt([], extra_body=f"<text:p>{deep}</text:p>"))
+    add(f"html with {depth} nested div", "deep.html", HEAD + "<div>" * depth + "<p>bottom</p>" + "</div>" * depth + "</body></html>")
+    add(f"epub chapter with {depth} nested span", "deep.epub", make_epub("Deep", [HEAD + "<p>" + "<span>" * depth + "bottom" + "</span>" * depth + "</p></body></html>"]))
+    if heavy:
+        try:
+            import pypdf.filters as pf
+            limits = sorted({v for k, v in vars(pf).items() if isinstance(v, int) and not isinstance(v, bool) and "MAX" in k.upper() and 1 << 20 <= v <= 200 << 20})
+        except Exception:  # noqa
+            limits = []
+        for lim in limits[:1]:
+            big = lim + (20 << 20)
+            side = int(big ** 0.5) + 1
+            res = b"/XObject << /Im0 6 0 R >>"
+            add(f"pdf with a {side}x{side} gray scan ({side * side} bytes inflated, above pypdf's inflate limit {lim}, as declared)", "scan_declared.pdf",
+                make_pdf(["A large scan."], res, [flate_image_object(side, side, side * side)]))
+            add(f"pdf with an image declared 8x8 whose stream inflates to {lim + (5 << 20)} bytes (above pypdf's inflate limit {lim})", "scan_bomb.pdf",
+                make_pdf(["A small picture."], res, [flate_image_object(8, 8, lim + (5 << 20))]))
+            add(f"pdf with an image declared 8x8 whose stream inflates to {lim - (1 << 20)} bytes (just below pypdf's inflate limit)", "scan_under.pdf",
+                make_pdf(["A small picture."], res, [flate_image_object(8, 8, lim - (1 << 20))]))
+    return docs
+
+
+def limits_search():
+    """Histories over `limit_corpus`: every document alone (process-global state before / after), then every document right after
+    every other one against its isolated result."""
+    import sharepoint2text
+    tmp = tempfile.mkdtemp(prefix="c15_limits_")
+    try:
+        docs = limit_corpus(tmp)
+        label = dict((p, l) for (l, p) in docs)
+
+        def alone(p):
+            before = dict(global_state(), **package_state())
+            d = digest(sharepoint2text, p)
+            return [d, state_diff(before, dict(global_state(), **package_state()))]
+        base = {}
+        for (lab, p) in docs:
+            r = forked(lambda p=p: alone(p), timeout=180).get("ok")
+            if r is None:
+                continue
+            base[p] = r[0]
+            leaks = [m for m in r[1] if m[0] != "open_fds"]
+            if leaks:
+                return {"reproduced": True, "target": lab, "inputs": {"history": [], "document": lab, "bytes_hex": _hex(p)},
+                        "expected": "process-global state (interpreter / third-party settings, temporary files) restored after the extraction",
+                        "observed": f"{leaks[0][0]}: {leaks[0][1]}", "search": "documents at the limits of the interpreter / of pypdf"}
+        paths = [p for (_l, p) in docs if p in base]
+        for first in paths:
+            for p in paths:
+                if p == first:
+                    continue
+                g = forked(lambda first=first, p=p: (digest(sharepoint2text, first), digest(sharepoint2text, p))[1], timeout=300).get("ok")
+                if g is not None and g != base[p]:
+                    return {"reproduced": True, "target": label[p],
+                            "inputs": {"history": [label[first]], "history_bytes_hex": _hex(first), "document": label[p], "bytes_hex": _hex(p)},
+                            "expected": f"digest of the isolated extraction {base[p][:16]}", "observed": f"{str(g)[:16]} after extracting {label[first]} in the same process",
+                            "search": "documents at the limits of the interpreter / of pypdf, every document after every other one"}
+        return None
+    finally:
+        import shutil
+        shutil.rmtree(tmp, ignore_errors=True)
 
 
 def small_fixtures(limit=400_000, per_dir=3):
@@ -836,6 +931,100 @@ def history_search(docs=None, extra_note=""):
         shutil.rmtree(tmp, ignore_errors=True)
 
 
+def interleave_search(cap=220):
+    """Lazily consumed results: extractors are generators, so two extractions can be alive in ONE thread.  For every ordered pair of
+    multi-result documents (A, B) (archive fixtures, generated archives / books; B may be a second copy of A):
+      (i)  take the first result of A, extract B completely, continue A;   (ii) first of A, first of B, rest of A, rest of B;
+    each result list against the document extracted alone in a forked pristine process; temp-dir residue afterwards."""
+    import sharepoint2text
+    tmp = tempfile.mkdtemp(prefix="c15_inter_")
+    try:
+        docs = [(l, p) for (l, p) in corrupted_archives(tmp, per_file=1) if l.endswith("(intact)")] + generated_corpus(tmp)
+
+        def results(p, gen=False):
+            ex = sharepoint2text.get_extractor(p)
+            g = ex(io.BytesIO(open(p, "rb").read()), p)
+            return g
+
+        def sig(r):
+            return hashlib.sha256(json.dumps(r.to_json(), sort_keys=True, default=str).encode()).hexdigest()[:16]
+
+        def drain(g, out):
+            try:
+                for r in g:
+                    out.append(sig(r))
+            except Exception as e:  # noqa
+                out.append("ERR:" + type(e).__name__)
+            return out
+
+        def alone(p):
+            try:
+                g = results(p)
+            except Exception as e:  # noqa
+                return ["ERR:" + type(e).__name__]
+            return drain(g, [])
+        base = {}
+        for (_l, p) in docs:
+            r = forked(lambda p=p: alone(p)).get("ok")
+            if r is not None and len([x for x in r if not x.startswith("ERR:")]) >= 2:
+                base[p] = r
+        multi = [(l, p) for (l, p) in docs if p in base]
+        ext = lambda p: os.path.basename(p).split(".", 1)[-1]
+        pairs = [(a, b) for a in multi for b in multi]
+        pairs.sort(key=lambda ab: (ext(ab[0][1]) != ext(ab[1][1]), ab[0][1] != ab[1][1]))      # same document twice, then same format, then the rest
+        tried = 0
+        for ((la, pa), (lb, pb)) in pairs[:cap]:
+            for mode in ("B completely while A is suspended after its first result", "A and B both suspended after their first result, then A, then B"):
+                def run(pa=pa, pb=pb, mode=mode):
+                    before = global_state()
+                    ga = results(pa)
+                    out_a, out_b = [], []
+                    try:
+                        out_a.append(sig(next(ga)))
+                    except StopIteration:
+                        pass
+                    except Exception as e:  # noqa
+                        out_a.append("ERR:" + type(e).__name__)
+                    gb = results(pb)
+                    if mode.startswith("B completely"):
+                        drain(gb, out_b)
+                        drain(ga, out_a)
+                    else:
+                        try:
+                            out_b.append(sig(next(gb)))
+                        except StopIteration:
+                            pass
+                        except Exception as e:  # noqa
+                            out_b.append("ERR:" + type(e).__name__)
+                        drain(ga, out_a)
+                        drain(gb, out_b)
+                    del ga, gb
+                    leaks = [m for m in state_diff(before, global_state()) if m[0] != "open_fds"]
+                    return [out_a, out_b, leaks]
+                tried += 1
+                r = forked(run, timeout=120).get("ok")
+                if not r:
+                    continue
+                out_a, out_b, leaks = r
+                who = None
+                if out_a != base[pa]:
+                    who, exp, got, lab = "A", base[pa], out_a, la
+                elif out_b != base[pb]:
+                    who, exp, got, lab = "B", base[pb], out_b, lb
+                if who or leaks:
+                    return {"reproduced": True, "target": la if who != "B" else lb,
+                            "inputs": {"history": f"one thread, two lazily consumed extractions: A = {la}, B = {lb}" + (" (a second copy of the same bytes)" if pa == pb else "") + f"; {mode}",
+                                       "document_A": la, "bytes_hex_A": _hex(pa), "document_B": lb, "bytes_hex_B": _hex(pb) if pb != pa else None},
+                            "expected": (f"extraction {who} yields the results it yields alone: {len(exp)} result(s) {exp}" if who else
+                                         "process-global state (temporary files) restored once both generators are exhausted"),
+                            "observed": (f"{len(got)} result(s) {got}" if who else f"{leaks[0][0]}: {leaks[0][1]}"),
+                            "search": f"interleaved generators over {len(multi)} multi-result documents ({tried} interleavings tried)"}
+        return None
+    finally:
+        import shutil
+        shutil.rmtree(tmp, ignore_errors=True)
+
+
 def _hex(p, cap=4000):
     try:
         b = open(p, "rb").read()
@@ -968,7 +1157,7 @@ def run_schedule(task_a, task_b, files, funcs, n, block_wait=None):
     return out.get("A"), out.get("B"), cnt[0], where[0]
 
 
-def workloads(rel):
+def workloads(rel, funcs=None, focus=None):
     """[(label A, task A, label B, task B)] concurrent workloads for the module that owns the state."""
     import sharepoint2text
     base = os.path.basename(rel or "")
@@ -1026,6 +1215,31 @@ def workloads(rel):
         docs = dict(generated_corpus(tmp))
         kind = ".epub" if "epub" in base else (".html" if "html" in base else ".zip" if "archive" in base else ".epub")
         ps = [p for p in docs.values() if p.endswith(kind)][:3]
+        if funcs and rel:
+            # chosen by what they EXECUTE: the documents (generated ones and those at the interpreter's limits) whose extraction spends
+            # the most line events inside the functions named by the obligation; the same document in both threads comes first
+            files = {os.path.join(REPO, rel)}
+            at_limits = limit_corpus(tmp, heavy=False)
+            n_lim = len(at_limits)
+            cands = at_limits + list(docs.items())
+            score = []
+            lo, hi = (min(focus) - 6, max(focus) + 3) if focus else (0, 0)
+            for ci, (lab, p) in enumerate(cands):
+                tr = forked(lambda p=p: line_trace(lambda: digest(sharepoint2text, p), files, set(funcs)), timeout=60).get("ok") or []
+                if tr:
+                    # documents that reach the statements named by the obligation first, then the busiest ones
+                    # (a RecursionError inside the traced code switches tracing off, so the exceptional paths of the documents at the
+                    # interpreter's limits are invisible to the trace: those documents come next)
+                    score.append((-len({ln for ln in tr if lo <= ln <= hi}), ci >= n_lim, -len(tr), lab, p))
+            score.sort()
+            top = score[:3]
+            lbl = lambda lab, p: f"extract {os.path.basename(p)} ({lab[:90]})"
+            if top:
+                ps = []
+                top = [t[2:] for t in top]
+                for (_r, la, a) in top[:2]:
+                    for (_r2, lb, b) in [(0, la, a)] + [t for t in top if t[2] != a]:
+                        w.append((lbl(la, a), lambda a=a: digest(sharepoint2text, a), lbl(lb, b), lambda b=b: digest(sharepoint2text, b), None))
         for a in ps[:2]:
             for b in ps:
                 if a != b:
@@ -1036,7 +1250,7 @@ def workloads(rel):
 def schedule_search(rel, funcs, cap=260):
     files = {os.path.join(REPO, rel)} if rel else set()
     funcs = set(funcs or ())
-    for (la, ta, lb, tb, warm) in workloads(rel):
+    for (la, ta, lb, tb, warm) in workloads(rel, funcs):
         import time as _time
 
         def prep():
@@ -1213,12 +1427,40 @@ def run_schedule2(task_a, task_b, files, funcs, n, m, block_wait=BLOCK_WAIT):
     return out.get("A"), out.get("B"), cnt["A"], cnt["B"], where.get("A"), where.get("B")
 
 
-def schedule2_search(rel, funcs, points=9):
+def line_trace(task, files, funcs):
+    """line numbers of the line events of `task` inside (files, funcs), in order"""
+    seen = []
+
+    def tracer(frame, event, arg):
+        co = frame.f_code
+        if co.co_filename not in files or (funcs and co.co_name not in funcs):
+            return None
+
+        def local(frame, event, arg):
+            if event == "line":
+                seen.append(frame.f_lineno)
+            return local
+        return local
+    out = []
+
+    def run():
+        sys.settrace(tracer)
+        try:
+            outcome(task)
+        finally:
+            sys.settrace(None)
+    t = threading.Thread(target=run)
+    t.start()
+    t.join(60)
+    return list(seen)
+
+
+def schedule2_search(rel, funcs, points=9, focus_lines=None):
     """Two threads, TWO context switches: A runs to its n-th line event inside (file, funcs) and parks, B runs to its m-th and
     parks, A finishes, B finishes -- for sampled (n, m).  Outcomes against the isolated baselines."""
     files = {os.path.join(REPO, rel)} if rel else set()
     funcs = set(funcs or ())
-    for (la, ta, lb, tb, warm) in workloads(rel):
+    for (la, ta, lb, tb, warm) in workloads(rel, funcs, focus_lines):
         def prep():
             if warm:
                 warm()
@@ -1234,6 +1476,15 @@ def schedule2_search(rel, funcs, points=9):
             return sorted(p for p in pts if 1 <= p <= total)
         pairs = [(n, m) for n in sample(total_a) for m in sample(total_b)]
         pairs.sort(key=lambda p: abs(p[0] - total_a / 2) + abs(p[1] - total_b / 2))
+        if focus_lines:
+            # the save / set / restore section named by the obligation: EVERY pair of line events of the two threads that lie in the
+            # window around the reported statements (first occurrences first), before the sampled pairs
+            lo, hi = min(focus_lines) - 6, max(focus_lines) + 3
+            tr_a = forked(lambda: (prep(), line_trace(ta, files, funcs))[1]).get("ok") or []
+            tr_b = tr_a if tb is ta else (forked(lambda: (prep(), line_trace(tb, files, funcs))[1]).get("ok") or [])
+            win_a = [i + 1 for i, ln in enumerate(tr_a) if lo <= ln <= hi][:14]
+            win_b = [i + 1 for i, ln in enumerate(tr_b) if lo <= ln <= hi][:14]
+            pairs = [(n, m) for n in win_a for m in win_b] + (pairs[:40] if win_a and win_b else pairs)
         for (n, m) in pairs:
             r = forked(lambda n=n, m=m: (prep(), run_schedule2(ta, tb, files, funcs, n, m, 1.0))[1], timeout=90).get("ok")
             if not r:
@@ -1437,11 +1688,21 @@ def _find(req):
         plan = ["serial", "history", "memo", "schedule"]
     else:
         plan = ["history", "serial", "fixtures"]
+    if "history" in plan:
+        plan = ["limits"] + plan
+    if hint.get("interleave") and "interleave" not in plan:
+        plan = ["interleave"] + plan
+    elif "history" in plan:
+        plan = plan + ["interleave"]
     tried = []
     for step in plan:
         r = None
         try:
-            if step == "memo":
+            if step == "interleave":
+                r = interleave_search()
+            elif step == "limits":
+                r = limits_search()
+            elif step == "memo":
                 for w in ([writer] if writer else []) + list(hint.get("accessors") or []):
                     r = memo_search(rel, w)
                     if r:
@@ -1451,9 +1712,14 @@ def _find(req):
             elif step == "serial":
                 r = serial_search()
             elif step == "schedule":
-                r = schedule_search(rel, funcs)
-                if not r and (hint.get("two_switch") or "is-set-around" in oid):
-                    r = schedule2_search(rel, funcs)
+                if hint.get("two_switch") and hint.get("lines"):
+                    r = schedule2_search(rel, funcs, focus_lines=hint.get("lines"))
+                    if not r:
+                        r = schedule_search(rel, funcs)
+                else:
+                    r = schedule_search(rel, funcs)
+                    if not r and (hint.get("two_switch") or "is-set-around" in oid):
+                        r = schedule2_search(rel, funcs, focus_lines=hint.get("lines"))
             elif step == "fixtures":
                 mism, nfiles, nsample = fixtures_check()
                 if mism:
